@@ -25,7 +25,53 @@ KNOWN = ("C02-MIXEDKIND", "C02-GONEREF")
 
 
 @st.composite
+def table_case(draw, tier):
+    """cardinality tables: ONE class of 4-9 instances and 1-2 properties; per instance and property a drawn number (0-3) of plain IRI
+    values and (0-2) of values that belong to a second shape E.  E is a shape-map label on nodes that are never subjects (its shape
+    has no constraints and is removed), a class with a property of its own, or absent.  The general generator has few instances per
+    class, so that the exact cardinalities {1}, {2} and '+' of one alternative rarely have three different frequencies."""
+    n = draw(st.integers(4, 9))
+    kindE = draw(st.sampled_from(["sm-empty", "sm-empty", "class", "none"]))
+    A = "http://ex.org/C0"
+    tr = []
+    for i in range(n):
+        tr.append([["iri", "http://ex.org/a%d" % i], RDF_TYPE, ["iri", A]])
+    E = ["http://ex.org/e%d" % j for j in range(3)]
+    for pi in range(draw(st.integers(1, 2))):
+        p = "http://ex.org/p%d" % pi
+        for i in range(n):
+            a = draw(st.sampled_from([0, 1, 1, 1, 2, 2, 3]))
+            b = 0 if kindE == "none" else draw(st.sampled_from([0, 0, 1, 1, 2]))
+            for x in range(a):
+                tr.append([["iri", "http://ex.org/a%d" % i], p, ["iri", "http://ex.org/u%d" % x]])
+            for x in range(b):
+                tr.append([["iri", "http://ex.org/a%d" % i], p, ["iri", E[(i + x) % 3]]])
+    if kindE == "class":
+        for e in E:
+            tr.append([["iri", e], RDF_TYPE, ["iri", "http://ex.org/ns/C1"]])
+            tr.append([["iri", e], "http://ex.org/ns/q", ["lit", "v", "http://www.w3.org/2001/XMLSchema#string", ""]])
+    perm = draw(st.permutations(range(len(tr))))
+    g = {"triples": [tr[i] for i in perm], "classes": [A] + (["http://ex.org/ns/C1"] if kindE == "class" else []), "inst_prop": RDF_TYPE}
+    cfg = draw(gg.switches())
+    cfg["instances_report_mode"] = "mixed"
+    if kindE == "sm-empty":
+        items = [{"sel": {"kind": "focus", "pos": "s", "p": "a", "other": A}, "label": "<http://sh.org/S0>", "styles": [0, 0, 0, 0]}]
+        items += [{"sel": {"kind": "node", "iri": e}, "label": "<http://sh.org/S1>", "styles": [0, 0, 0, 0]} for e in E]
+        target = {"mode": "sm", "with_all": False, "items": items}
+    else:
+        target = {"mode": "all"}
+    grid = sorted(set([0, 1, 0.5, 0.51] + [k / n for k in range(1, n + 1)] + [k / n + 1e-9 for k in range(1, n)]))
+    cap = 10 if tier == "quick" else 20
+    if len(grid) > cap:
+        extra = draw(st.lists(st.sampled_from(grid), min_size=cap - 2, max_size=cap - 2, unique=True))
+        grid = sorted(set([0, 1] + extra))
+    return {"g": g, "cfg": cfg, "target": target, "grid": grid, "table": True}
+
+
+@st.composite
 def cases(draw, tier):
+    if draw(st.integers(0, 4)) == 0:
+        return draw(table_case(tier))
     g = draw(gg.general(inst_props=(RDF_TYPE, RDF_TYPE, RDF_TYPE, "http://ex.org/isA"), quirks=draw(gg.quirk_set(one_in=4))))
     cfg = draw(gg.switches())
     cfg.update(draw(gg.harmless_extras()))
@@ -114,6 +160,8 @@ def check(case):
         if "__dup_labels__" in docs[t]:
             return discard("label-collision")
     labels = set()
+    if case.get("table"):
+        labels.add("cardinality-table")
     nt = False
     dec = cfg.get("disable_exact_cardinality", False)
     kf_nonlit = []
